@@ -36,6 +36,18 @@ AMBIENT_PREFIXES = ("std::time::", "std::env::", "std::thread::", "std::process:
 INT_TYPES = ("usize", "u64", "u32", "u128", "isize", "i64", "i32", "i128", "u16", "i16", "u8", "i8")
 
 
+def no_unsafe(F, rep, rule):
+    n_unsafe = 0
+    for fn in F.own_fns(ANALYSED_CRATES):
+        for b in nodes(fn_body(fn), "Block"):
+            if b.get("unsafe"):
+                n_unsafe += 1
+                rep.ob(rule, "%s|unsafe-block" % last(fn["_path"], 2), False,
+                       "an `unsafe` block in the compile path: uninitialised memory, data races and out-of-bounds reads are sources of "
+                       "run-to-run differences and of crashes that none of the other rules sees", line_of(b))
+    rep.ob(rule, "no-unsafe-code", n_unsafe == 0, "the five crates contain no user-written `unsafe` block (%d)" % n_unsafe, sites=n_unsafe)
+
+
 def is_hash_ty(t):
     return bool(HASH_TY.match(strip_ty(t)))
 
@@ -121,6 +133,8 @@ def run(F, rep, tier):
                     if cal.startswith(AMBIENT_PREFIXES):
                         rep.ob("AMBIENT", "%s|%s" % (fname, cal), False,
                                "compile path consults an ambient source: %s" % cal, line_of(c))
+    # the argument `safe Rust without these sources is a function of its inputs` needs the code to be safe Rust
+    no_unsafe(F, rep, "AMBIENT")
     rep.ob("HASH-fmt", "census", True, "%d formatted arguments inspected; none is a HashMap/HashSet" % n_fmt, sites=n_fmt)
     rep.floor("HASH", "hash-iteration sources", n_src, 4)
     # positive control for the ambient matcher: the driver crate `sylt` starts `lua` via std::process::Command
